@@ -3,19 +3,20 @@
 From SB3V Require Import Lib.Tactics Gen.Frag_seed Model.Seeding Proofs.SeedingProofs.
 Local Open Scope Z_scope.
 
-(* every seeding call of set-up receives the user's seed itself *)
-Lemma frag_seed_args s :
-  seed_py_arg s = s /\ seed_np_arg s = s /\ seed_torch_arg s = s /\ seed_global_arg s = s /\
-  seed_aspace_arg s = s /\ seed_env_arg s = s.
+(* every seeding call of set_random_seed(seed) receives the ARGUMENT seed itself - whatever the model's
+   constructor seed self.seed (ms) is *)
+Lemma frag_seed_args s ms :
+  seed_py_arg s = s /\ seed_np_arg s = s /\ seed_torch_arg s = s /\ seed_global_arg s ms = s /\
+  seed_aspace_arg s ms = s /\ seed_env_arg s ms = s.
 Proof. unfold seed_py_arg, seed_np_arg, seed_torch_arg, seed_global_arg, seed_aspace_arg, seed_env_arg. repeat split; lia. Qed.
 
-(* so the code's set-up is the model's op list *)
-Lemma frag_setup s :
-  setup (Some s) = [SetRandomSeed (seed_py_arg (seed_global_arg s)); ActionSpaceSeed (seed_aspace_arg s); EnvSeed (seed_env_arg s)] /\
-  seed_np_arg (seed_global_arg s) = seed_py_arg (seed_global_arg s) /\ seed_torch_arg (seed_global_arg s) = seed_py_arg (seed_global_arg s).
+(* so the code's set_random_seed(s) is the model's op list, for every self.seed *)
+Lemma frag_setup s ms :
+  setup (Some s) = [SetRandomSeed (seed_py_arg (seed_global_arg s ms)); ActionSpaceSeed (seed_aspace_arg s ms); EnvSeed (seed_env_arg s ms)] /\
+  seed_np_arg (seed_global_arg s ms) = seed_py_arg (seed_global_arg s ms) /\ seed_torch_arg (seed_global_arg s ms) = seed_py_arg (seed_global_arg s ms).
 Proof.
-  destruct (frag_seed_args s) as (A1 & A2 & A3 & A4 & A5 & A6).
-  destruct (frag_seed_args (seed_global_arg s)) as (B1 & B2 & B3 & _).
+  destruct (frag_seed_args s ms) as (A1 & A2 & A3 & A4 & A5 & A6).
+  destruct (frag_seed_args (seed_global_arg s ms) ms) as (B1 & B2 & B3 & _).
   rewrite B1, B2, B3, A4, A5, A6. repeat split; reflexivity.
 Qed.
 
